@@ -89,6 +89,19 @@ pub fn json_str(s: &str) -> String {
     o
 }
 
+/// user + system CPU time of this process in ms (Linux: fields 14 and 15 of /proc/self/stat, in clock
+/// ticks of 10 ms); a constant when it cannot be read, which leaves the 5x wall-clock rule alone in charge
+fn process_cpu_ms() -> u64 {
+    let Ok(s) = std::fs::read_to_string("/proc/self/stat") else { return u64::MAX / 4 };
+    let Some(rest) = s.rfind(')').map(|i| &s[i + 1..]) else { return u64::MAX / 4 };
+    let f: Vec<&str> = rest.split_whitespace().collect();
+    // rest starts at field 3 (state); utime = field 14, stime = field 15
+    match (f.get(11).and_then(|x| x.parse::<u64>().ok()), f.get(12).and_then(|x| x.parse::<u64>().ok())) {
+        (Some(u), Some(st)) => (u + st) * 10,
+        _ => u64::MAX / 4,
+    }
+}
+
 impl Ctx {
     pub fn new(prop: &str, tier: Tier, seed: u64, outdir: &str, start_at: u64, exec: crate::ExecFn) -> Ctx {
         std::fs::create_dir_all(outdir).expect("outdir");
@@ -109,18 +122,35 @@ impl Ctx {
             .and_then(|s| s.parse().ok())
             .unwrap_or(10_000);
         {
-            // watchdog: heartbeat holds the start time (ms since t0, +1) of the running case, 0 when idle
+            // watchdog: heartbeat holds the start time (ms since t0, +1) of the running case, 0 when idle.
+            // A case is a hang when it is over its wall-clock allowance AND the process has burnt at least
+            // half of it in CPU time since the case began (a spinning loop), or when it is over five times
+            // the allowance whatever the CPU time (a deadlock).  The CPU condition keeps a machine that is
+            // merely overloaded (the case descheduled, not running) from being mistaken for a hang.
             let hb = heartbeat.clone();
             let t0 = Instant::now();
             let od = outdir.to_string();
-            std::thread::spawn(move || loop {
-                std::thread::sleep(Duration::from_millis(100));
-                let started = hb.load(Ordering::Relaxed);
-                if started != 0 {
+            std::thread::spawn(move || {
+                let mut seen = 0u64;
+                let mut cpu_at_start = 0u64;
+                loop {
+                    std::thread::sleep(Duration::from_millis(100));
+                    let started = hb.load(Ordering::Relaxed);
+                    if started == 0 {
+                        seen = 0;
+                        continue;
+                    }
+                    if started != seen {
+                        seen = started;
+                        cpu_at_start = process_cpu_ms();
+                    }
                     let now = t0.elapsed().as_millis() as u64 + 1;
                     if now > started + case_timeout_ms {
-                        let _ = std::fs::write(format!("{od}/hang"), b"hang\n");
-                        std::process::exit(3);
+                        let cpu = process_cpu_ms().saturating_sub(cpu_at_start);
+                        if cpu * 2 >= case_timeout_ms || now > started + 5 * case_timeout_ms {
+                            let _ = std::fs::write(format!("{od}/hang"), b"hang\n");
+                            std::process::exit(3);
+                        }
                     }
                 }
             });
